@@ -79,7 +79,7 @@ def log_value(c, nr, base):
     return (base**cp - 1.0) / (base - 1.0) + float(nr)
 
 
-def log_counter_model(counter, nr, umax, base, draws, value):
+def log_counter_model(counter, nr, umax, base, draws, value, draw_at_boundary=True):
     """The update rule of the property: +1 deterministically below num_reserved, at or above it
     one uniform draw u is consumed and the counter advances iff u < base**-(c-nr); nothing
     happens at the maximum.  draws is an iterator of uniforms.  Returns (counter, n_consumed)."""
@@ -88,7 +88,9 @@ def log_counter_model(counter, nr, umax, base, draws, value):
         if counter >= umax:
             break
         cp = counter - nr
-        if cp < 0:
+        if cp < 0 or (cp == 0 and not draw_at_boundary):
+            # deterministic step (at c == num_reserved the advance probability is base**0 = 1, so an
+            # implementation may or may not spend a draw on it: both variants are legitimate)
             counter += 1
         else:
             u = next(draws)
